@@ -664,7 +664,7 @@ func main() {
 	env, rep := vh.Parse("C20")
 	rng := vh.NewRng(env.Seed)
 	rep.Rule = "a case is one ordered pair (a,b) inside a pool of 4-8 related values (same type / mixed types / mutants of one tree: " +
-		"reordered or replaced map keys, changed leaves, nil vs empty payloads, NaNs / a value and its decoding / one value of every type built from the same content (all ordered type pairs) / payloads that are windows of one shared backing array with their independent copies / containers built through mutation histories next to plainly built twins / containers of 1..1000 minimal-size elements (null, empty text / blob / array, decimal 0) alone, nested and as the last field, decoded from an exact-size buffer / every construction route (zero values of the structs, payload fields assigned to nil / short / long slices) / containers of 32767 … 70000 entries against their decoding / chains of neighbouring representable numbers and offsets around 1e-6 for every numeric type, bare and inside arrays, lists and maps); laws are evaluated on all pairs and triples of a pool; " +
+		"reordered or replaced map keys, changed leaves, nil vs empty payloads, NaNs / a value and its decoding / one value of every type built from the same content (all ordered type pairs) / payloads that are windows of one shared backing array with their independent copies / containers built through mutation histories next to plainly built twins / containers of 1..1000 minimal-size elements (null, empty text / blob / array, decimal 0) alone, nested and as the last field, decoded from an exact-size buffer / every construction route (zero values of the structs, payload fields assigned to nil / short / long slices) / containers of 32767 … 70000 entries against their decoding / chains of one-entry lists, maps and int maps (and their alternations) nested 1 … 1000 levels deep around equal and different leaves, with the clause that the same chain around both operands changes neither Equals nor the sign of CompareTo evaluated on the implementation / chains of neighbouring representable numbers and offsets around 1e-6 for every numeric type, bare and inside arrays, lists and maps); laws are evaluated on all pairs and triples of a pool; " +
 		"non-trivial = a and b are not both null; distinct by the two one-line forms"
 
 	var pools []pool
@@ -774,6 +774,7 @@ func main() {
 		pools = append(pools, nearPools(rng.Fork(), env.Thorough)...)
 		pools = append(pools, minimalPools()...)
 		pools = append(pools, routePools()...)
+		pools = append(pools, deepPools(env.Thorough)...)
 	}
 
 	// ---- model
@@ -1115,6 +1116,8 @@ func main() {
 	if env.Replay == "" {
 		zeroStructProbe(rep)
 		largeStage(rep, env.Thorough)
+		depthStage(rep)
+		helperStage(rep, env, rng.Fork())
 	}
 
 	// ---- known findings: replay the witnesses of the recorded quirks on the implementation
